@@ -11,6 +11,22 @@ structure Cx where
   rs : List (List LItem)
   N : List Src.Node
   hlab : (labelIds rs.flatten).Nodup
+  /-- the label zone of the node table: the nodes `allocLabels` made have indices below `Z` -/
+  Z : Nat := 0
+  /-- the label table of the front end at the end: user label name ↦ label number -/
+  named : List (String × Nat) := []
+  /-- the user labels defined somewhere in the program -/
+  defs : List String := []
+
+/-- the environments of the translation: no macro substitution, no macro to return from, label nodes in the label zone -/
+structure EnvOK (cx : Cx) (env : Src.Env) : Prop where
+  subst : env.subst = []
+  ret : env.ret = none
+  dense : ∀ n i, env.labels.lookup n = some i → i < cx.Z
+
+theorem envOK_empty (cx : Cx) : EnvOK cx {} := ⟨rfl, rfl, fun n i h => by cases h⟩
+
+theorem EnvOK.plain {cx : Cx} {env : Src.Env} (h : EnvOK cx env) : PlainEnv env := ⟨h.1, h.2⟩
 
 abbrev EE (cx : Cx) (m : Nat) (p : LPos) (n : Nat) : Prop := E (labLTS cx.rs) (nodeLTS cx.N) m p n
 abbrev GG (cx : Cx) (j m : Nat) (p : LPos) (n : Nat) : Prop := G (labLTS cx.rs) (nodeLTS cx.N) j (E (labLTS cx.rs) (nodeLTS cx.N) m) p n
@@ -127,8 +143,8 @@ structure PieceOK (cx : Cx) (items : List LItem) (s s' : St) (trf : Nat → Src.
   /-- a piece that is one `Jump` (`_process_block` may fold it into the header jumps): the statement goes to an exit -/
   lone : ∀ l, loneJump items = some (some l) → ∀ m j, ExitsOK cx m j s env → ∃ n, (∀ k b, trf k b = (b, n)) ∧
     R2 cx m j (target cx.rs l) n
-  grow : ∀ k b, Grow b (trf k b).1
-  corr : ∀ r i0, Placed cx.rs r i0 items → afterCtxL cx.rs ⟨r, i0⟩ = false → ∀ k b, AgreeOn cx.N b (trf k b).1 →
+  grow : ∀ k b, Grow cx.Z b (trf k b).1
+  corr : ∀ r i0, Placed cx.rs r i0 items → afterCtxL cx.rs ⟨r, i0⟩ = false → ∀ k b, AgreeOn cx.N cx.Z b (trf k b).1 →
     ∀ m j, ExitsOK cx m j s env → (falls items = true → R2 cx m j ⟨r, i0 + items.length⟩ k) → R2 cx m j ⟨r, i0⟩ (trf k b).2
 
 /-! ### `falls` of a sequence -/
